@@ -93,7 +93,7 @@ def gen_case(rng, car):
     return Op("OKron", [x, gen_tt(rng, d=rng.choice([1, 2]), cplx=cplx)]), "kron", None
 
 def nontrivial(e, cat):
-    if cat in ("bcast", "scalar", "div", "scalar-tiny", "scalar-wide", "scalar-complex-on-real") or cat.startswith("factory"):
+    if cat in ("exhaustive-structure", "bcast", "scalar", "div", "scalar-tiny", "scalar-wide", "scalar-complex-on-real") or cat.startswith("factory"):
         return True
     return any(isinstance(a, Lit3) and any(c.shape[2] > 1 for c in a.cores[:-1]) for a in e.args)
 
@@ -102,7 +102,25 @@ RULE = ("random structured expressions (order 1..5, pairwise-distinct mode sizes
         "small-integer (dyadic for division) cores so every value is exact; non-trivial = some interior rank > 1 on a TT operand or a "
         "broadcast/scalar branch; distinct = distinct (expression structure, dtype) key")
 
+def exhaustive_structures(rng):
+    """thorough tier: EVERY structure of x (op) y for orders 1..3, mode sizes in {1,2,3}, every trailing alignment of a shorter y and every
+    subset of its modes collapsed to size 1, op in + - *; ranks and values random (rank 1 and 2 both occur)"""
+    import itertools, torch
+    out = []
+    for d in (1, 2, 3):
+        for N in itertools.product((1, 2, 3), repeat=d):
+            for k in range(1, d + 1):
+                for mask in itertools.product((False, True), repeat=k):
+                    Ny = [1 if m else n for m, n in zip(mask, N[d - k:])]
+                    for op in ("OAdd", "OSub", "OMul"):
+                        x = Lit3(ttgen.rand_tt_cores(rng, list(N), ttgen.rand_ranks(rng, d, 2), False))
+                        y = Lit3(ttgen.rand_tt_cores(rng, Ny, ttgen.rand_ranks(rng, k, 2), False))
+                        out.append((Op(op, [x, y]), "exhaustive-structure", torch.float64, coqrun.Z))
+    return out
+
 def run(tier, seed, replay=None):
     import torch
     dtypes = [(torch.float64, coqrun.Z), (torch.float64, coqrun.Z), (torch.float32, coqrun.Z), (torch.complex128, coqrun.ZI)]
-    return exprcheck.run(PID, tier, seed, gen_case, 400, 6000, RULE, nontrivial, dtypes)
+    return exprcheck.run(PID, tier, seed, gen_case, 400, 6000, RULE + ("; thorough tier additionally enumerates EVERY structure x (op) y of order 1..3 with mode "
+                         "sizes 1..3, all trailing alignments and size-1 collapses of y" if tier == "thorough" else ""), nontrivial, dtypes,
+                         extra_cases=exhaustive_structures if tier == "thorough" else None)
